@@ -2466,7 +2466,8 @@ class Converter:
             for record in self.records
             if any(prefix in prefixes for prefix in record._all_prefixes)
         ]
-        return Converter(records, delimiter=self.delimiter)
+        # keep the class, so a subclass that overrides :meth:`standardize_identifier` answers the same way
+        return type(self)(records, delimiter=self.delimiter)
 
 
 def _eq(a: str, b: str, case_sensitive: bool) -> bool:
@@ -2546,7 +2547,8 @@ def chain(converters: Sequence[Converter], *, case_sensitive: bool = True) -> Co
     """
     if not converters:
         raise ValueError
-    rv = Converter([], delimiter=converters[0].delimiter)
+    # the first converter has the highest priority, this includes its class and its delimiter
+    rv = type(converters[0])([], delimiter=converters[0].delimiter)
     for converter in converters:
         for record in converter.records:
             # copy, since merging mutates records in place
